@@ -163,8 +163,8 @@ def pcapng_capture(draw, messages):
 
     ethernet = draw(st.booleans())
     f = io.BytesIO()
-    # raw-IP captures declare LINKTYPE_IPV4 (228, what tpm2-tss' tcti-pcap writes) or LINKTYPE_RAW
-    w = dpkt.pcapng.Writer(f, linktype=dpkt.pcap.DLT_EN10MB if ethernet else draw(st.sampled_from([228, dpkt.pcap.DLT_RAW])))
+    # raw-IP captures declare LINKTYPE_IPV4 (228, what tpm2-tss' tcti-pcap writes), LINKTYPE_RAW (101) or the BSD DLT_RAW (12)
+    w = dpkt.pcapng.Writer(f, linktype=dpkt.pcap.DLT_EN10MB if ethernet else draw(st.sampled_from([228, 101, dpkt.pcap.DLT_RAW])))
     # loopback frames have all-zero addresses; a capture from a network interface has any (the two directions swap them)
     macs = (b"\x00" * 6, b"\x00" * 6) if not ethernet or draw(st.booleans()) else (draw(st.binary(min_size=6, max_size=6)), draw(st.binary(min_size=6, max_size=6)))
     noise = {"runts": 0, "trailers": 0, "ethernet": ethernet, "mac_addresses": macs[0] != b"\x00" * 6}
